@@ -163,11 +163,14 @@ def items(tier, seed):
     out = [{'h': 'esc', 'L': 2 if tier == 'quick' else 3, 'cost': 9}, {'h': 'escrx'}]
     Lm = 2 if tier == 'quick' else 5
     for si in range(len(SOURCES)):
-        for l1 in ((0, 1, 3) if tier == 'quick' else range(Lm + 1)):
+        # the two long sources (backslashes, control characters) keep the quick geometry in the
+        # thorough tier, with longer second matches
+        small = tier == 'quick' or si >= 4
+        for l1 in ((0, 1, 3) if small else range(Lm + 1)):
             # one item per distance of the second match: parallel over the 16 cores
-            for d in range(-2 if tier == 'quick' else -4, (3 if tier == 'quick' else 8) + 1):
-                out.append({'h': 'rep', 'src': si, 'l1': l1, 'Lm': Lm, 'dmin': d, 'dmax': d,
-                            'cost': len(SOURCES[si]), 'budget': 600})
+            for d in range(-2 if small else -4, (3 if small else 8) + 1):
+                out.append({'h': 'rep', 'src': si, 'l1': l1, 'Lm': Lm if not (si >= 4 and tier != 'quick') else 3,
+                            'dmin': d, 'dmax': d, 'cost': len(SOURCES[si]), 'budget': 600})
     out.append({'h': 'esc', 'L': 1, 'twin': True})
     out.append({'h': 'rep', 'src': 1, 'l1': 1, 'Lm': 1, 'dmin': 0, 'dmax': 1, 'twin': True})
     return out
